@@ -11,10 +11,6 @@ import (
 	"sort"
 	"strconv"
 	"strings"
-
-	"github.com/spf13/viper"
-
-	"github.com/atlassian/gostatsd/pkg/backends/newrelic"
 )
 
 type nrCfg struct {
@@ -387,7 +383,7 @@ func runNewRelic(e *env, cs *caseRef, w *workload, rng *rand.Rand) {
 	c.Renamed = rng.Intn(3) == 0
 	cs.Config = c
 	f := c.fields()
-	v := viper.New()
+	v := newCfg()
 	v.Set("newrelic.flush-type", c.FlushType)
 	switch c.FlushType {
 	case "infra":
@@ -422,7 +418,7 @@ func runNewRelic(e *env, cs *caseRef, w *workload, rng *rand.Rand) {
 	}
 	v.Set("flush-interval", "10s")
 	setDisabled(v, w.Disabled)
-	be, err := newrelic.NewClientFromViper(v, e.logger, e.pool)
+	be, err := e.initBackend(cs, "newrelic", v, rng)
 	if err != nil {
 		e.r.Inconclusive("newrelic:factory-error")
 		return
